@@ -8,60 +8,7 @@ import (
 	"golang.org/x/tools/go/cfg"
 
 	"rscheck/cfgq"
-	"rscheck/core"
-	"rscheck/pat"
 )
-
-// AfterWaitReturnsZero: from the point after a Wait, the function does
-// nothing but return (0, nil) — spelled as constants or as the store call's n
-// and err (binds _n, _err), which the no-progress edge pins to 0 and nil and
-// which must not be re-assigned on the way.
-func AfterWaitReturnsZero(info *types.Info, wp cfgq.Point, binds pat.Binds) bool {
-	okRet, sawRet := true, false
-	seenB := map[*cfg.Block]bool{}
-	var walk func(b *cfg.Block, from int)
-	walk = func(b *cfg.Block, from int) {
-		for i := from; i < len(b.Nodes); i++ {
-			nd := b.Nodes[i]
-			if ret, isRet := nd.(*ast.ReturnStmt); isRet {
-				sawRet = true
-				if len(ret.Results) != 2 {
-					okRet = false
-					return
-				}
-				r0, r1 := ast.Unparen(ret.Results[0]), ast.Unparen(ret.Results[1])
-				if v, isC := core.IntConst(info, r0); !(isC && v == 0) && !pat.Same(info, r0, binds["_n"]) {
-					okRet = false
-				}
-				if !core.IsNil(info, r1) && !pat.Same(info, r1, binds["_err"]) {
-					okRet = false
-				}
-				return
-			}
-			if _, isDefer := nd.(*ast.DeferStmt); isDefer {
-				continue
-			}
-			if len(cfgq.ExecCalls(nd)) > 0 {
-				okRet = false
-			}
-			if as, isAs := nd.(*ast.AssignStmt); isAs {
-				for _, l := range as.Lhs {
-					if pat.Same(info, l, binds["_n"]) || pat.Same(info, l, binds["_err"]) {
-						okRet = false
-					}
-				}
-			}
-		}
-		for _, s := range b.Succs {
-			if !seenB[s] {
-				seenB[s] = true
-				walk(s, 0)
-			}
-		}
-	}
-	walk(wp.B, wp.I+1)
-	return okRet && sawRet
-}
 
 // EvalUnder evaluates a boolean condition when the truth of some atoms is
 // assumed: atom reports (value, known) for an atomic sub-expression.
@@ -92,106 +39,6 @@ func EvalUnder(cond ast.Expr, atom func(ast.Expr) (bool, bool)) (bool, bool) {
 		}
 	}
 	return atom(cond)
-}
-
-// RetriesOnWake checks the caller of a wait-and-return-(0,nil) operation: from
-// each call of `callee`, assuming it returned no bytes and no error and that
-// the caller's buffer is not empty, no normal exit is reachable without calling
-// callee again (the condition values on the way are decided from that
-// assumption; a branch that does not depend on it is followed both ways).
-// It returns the calls examined and, for a failing one, a witness path.
-func RetriesOnWake(g *cfgq.Graph, callee *types.Func, bufParam types.Object) (calls int, witness []string) {
-	info := g.Info
-	isCall := func(n ast.Node) bool {
-		for _, c := range cfgq.ExecCalls(n) {
-			if core.CalleeFunc(info, c) == callee {
-				return true
-			}
-		}
-		return false
-	}
-	for _, p := range g.Points(isCall) {
-		calls++
-		// the variables holding the results
-		var nObj, errObj types.Object
-		switch st := p.Node().(type) {
-		case *ast.AssignStmt:
-			if len(st.Lhs) == 2 {
-				if id, ok := st.Lhs[0].(*ast.Ident); ok {
-					nObj = core.ObjOf(info, id)
-				}
-				if id, ok := st.Lhs[1].(*ast.Ident); ok {
-					errObj = core.ObjOf(info, id)
-				}
-			}
-		}
-		if nObj == nil || errObj == nil {
-			return calls, []string{"the results of " + callee.Name() + " are not assigned to two variables at " + g.Fset.Position(p.Node().Pos()).String()}
-		}
-		is := func(x ast.Expr, o types.Object) bool {
-			id, ok := ast.Unparen(x).(*ast.Ident)
-			return ok && core.ObjOf(info, id) == o
-		}
-		atom := func(a ast.Expr) (bool, bool) {
-			be, ok := ast.Unparen(a).(*ast.BinaryExpr)
-			if !ok {
-				return false, false
-			}
-			for _, pr := range [][2]ast.Expr{{be.X, be.Y}, {be.Y, be.X}} {
-				l, r := pr[0], pr[1]
-				swapped := l != be.X
-				op := be.Op
-				if swapped {
-					op = map[token.Token]token.Token{token.LSS: token.GTR, token.GTR: token.LSS, token.LEQ: token.GEQ, token.GEQ: token.LEQ, token.EQL: token.EQL, token.NEQ: token.NEQ}[op]
-				}
-				zero := false
-				if v, isC := core.IntConst(info, r); isC && v == 0 {
-					zero = true
-				}
-				switch {
-				case is(l, nObj) && zero: // n == 0 holds
-					switch op {
-					case token.EQL, token.LEQ:
-						return true, true
-					case token.NEQ, token.GTR:
-						return false, true
-					}
-				case is(l, errObj) && core.IsNil(info, r): // err == nil holds
-					switch op {
-					case token.EQL:
-						return true, true
-					case token.NEQ:
-						return false, true
-					}
-				case zero: // len(b) != 0 holds
-					if call, isC := ast.Unparen(l).(*ast.CallExpr); isC && len(call.Args) == 1 {
-						if bi, isB := core.Callee(info, call).(*types.Builtin); isB && bi.Name() == "len" && is(call.Args[0], bufParam) {
-							switch op {
-							case token.EQL, token.LEQ:
-								return false, true
-							case token.NEQ, token.GTR:
-								return true, true
-							}
-						}
-					}
-				}
-			}
-			return false, false
-		}
-		w := g.Path(cfgq.Query{From: p, After: true, Avoid: isCall, TargetExit: cfgq.NormalExit,
-			AvoidEdge: func(b *cfg.Block, s int) bool {
-				cnd := cfgq.CondOf(b)
-				if cnd == nil || len(b.Succs) != 2 || b.Succs[0].Kind == cfg.KindSwitchCaseBody && !isBool(info, cnd) {
-					return false
-				}
-				v, known := EvalUnder(cnd, atom)
-				return known && ((s == 0) != v)
-			}})
-		if w != nil {
-			return calls, w
-		}
-	}
-	return calls, nil
 }
 
 func isBool(info *types.Info, x ast.Expr) bool {
